@@ -8,6 +8,8 @@ ops (t = thread id):
   fin <t>      rest of t's send: EncryptDanger(c) / Store(Reject) -> `sealed <nonce>` | `refused` | `pinned` | `skip`
   hotsend <t>  the real sendInsideEncrypt as one step             -> `sealed <nonce>` | `refused` | `skip`
   load                                                           -> `<counter>`
+  callsites    AST scan of the repository: every call of EncryptDanger / NextMessageCounter / a mutating
+               method of a `messageCounter` field, as sorted `<function>:<callee>` list
   lockrace <t> <rounds>  3·rounds real sendInsideEncrypt calls by contending goroutines (two senders,
                one held inside EncryptDanger while the other starts)  -> `ok sealed=<k> ctr=<counter>` | `skip`
                | `disorder <n> reached the cipher after <m>` (lock mode only; never produced by the model)
@@ -62,8 +64,27 @@ def phase (s : S) : String :=
   else if s.m.ctr.toNat + 8 ≥ reject.toNat then ":near-ceiling"
   else ""
 
+/-- every place in the repository that reserves a message counter or hands one to the cipher; the model
+(`add` / `fin` steps; `ctl` = through NextMessageCounter) and the structural facts cover exactly these.
+`newConnectionStateFromResult` seeds the counter with the handshake's message index before the tunnel
+is shared (the start value `ctr0` of the model). -/
+def knownCallSites : String :=
+  ",".intercalate [
+    "ConnectionState.NextMessageCounter:messageCounter.Add",
+    "ConnectionState.NextMessageCounter:messageCounter.Store",
+    "Interface.prepareSendVia:EncryptDanger",
+    "Interface.prepareSendVia:NextMessageCounter",
+    "Interface.sendInsideEncrypt:EncryptDanger",
+    "Interface.sendInsideEncrypt:messageCounter.Add",
+    "Interface.sendNoMetrics:EncryptDanger",
+    "Interface.sendNoMetrics:NextMessageCounter",
+    "newConnectionStateFromResult:messageCounter.Add"]
+
 def step (s : S) (args : List String) (impl : String) : S × Out :=
   match args with
+  | ["callsites"] =>
+    (s, { model := knownCallSites, verdict := expect "unlisted-counter-callsite" impl knownCallSites,
+          tag := "callsites" })
   | ["reset", c0, lock, _cipher] =>
     match natArg c0 with
     | some c0 =>
@@ -72,17 +93,24 @@ def step (s : S) (args : List String) (impl : String) : S × Out :=
          h := { ctr0 := c0, ceiling := reject.toNat, increasing := lock == "1" }, wrapped := false },
        { model := "ok", tag := "triv:reset" })
     | none => (s, badOp)
-  | ["lockrace", t, rounds] =>
+  | "lockrace" :: t :: rounds :: rest =>
     match natArg t, natArg rounds with
     | some t, some rounds =>
       if (s.m.pend t).isSome then (s, { model := "skip", tag := "triv:skip" }) else
-      -- whoever wins the lock, each send is one critical section: 3·rounds atomic hot-path sends
-      let (s', k) := (List.range (3 * rounds)).foldl (fun (a : S × Nat) _ =>
-        let s1 := doAdd a.1 false t
+      -- which real send path each of the three sends of a round takes: h = sendInsideEncrypt,
+      -- v = prepareSendVia, c = sendNoMetrics (the latter two reserve through NextMessageCounter)
+      let pat := match rest with
+        | [p] => if p.length == 3 then p.toList else ['h', 'h', 'h']
+        | _ => ['h', 'h', 'h']
+      let kinds := (List.replicate rounds pat).flatten
+      -- whoever wins the lock, each send is one critical section: atomic sends
+      let (s', k) := kinds.foldl (fun (a : S × Nat) kind =>
+        let s1 := doAdd a.1 (kind != 'h') t
         let (s2, r) := doFin s1 t
         (s2, match r with | .sealed _ => a.2 + 1 | _ => a.2)) (s, 0)
       let verdict := if impl.startsWith "disorder" then s!"bad locked-not-monotone {impl}" else "ok"
-      (s', { model := s!"ok sealed={k} ctr={s'.m.ctr.toNat}", verdict := verdict, tag := "lockrace" ++ phase s })
+      (s', { model := s!"ok sealed={k} ctr={s'.m.ctr.toNat}", verdict := verdict,
+             tag := "lockrace:" ++ String.ofList pat ++ phase s })
     | _, _ => (s, badOp)
   | [op, t] =>
     match natArg t with
